@@ -29,6 +29,10 @@ func C02(c *mc.Ctx) {
 	// union pier) and a service on the remote hub calling a local service
 	runIC(c, "C02", c02Oracle, fix.Options{Audit: false}, "icmc-inter-hub",
 		[]string{"req:ph:n:0", "rc:ph:n:s", "req:pr:n:0", "rc:pr:n:s", "rc:pr:n:f", "req:ph:d:0", "req:pr:f:0", "nt:ph:n:br", "rc:ph:f:s", "req:ph:n:0+req:pr:n:0", "req:p1:n:0"}, depth-1)
+	// the remote hub's record frozen / activated again: requests to an unavailable hub begin as failed
+	// (counted, told to the source chain only), receipts and notices for them
+	runIC(c, "C02", c02Oracle, fix.Options{Audit: false}, "icmc-hubdown-inter-hub",
+		[]string{"hubfz", "hubac", "req:ph:n:0", "rc:ph:n:f", "rc:ph:n:s", "nt:ph:n:br"}, depth-1)
 	fix.Cleanup()
 	c.Set("rule", "BFS over block histories whose blocks carry IBTP requests/receipts for 4 ordered service pairs (one blacklisted, one reverse, one service sending to itself; in a further exploration a pair whose source service is registered as unordered) with index = next/duplicate/future/zero/huge/unknown, mixed packing, unrelated transfers and direct calls of the interchain contract's public methods by an outsider; audit off and on; after every block receipts, both-side counters, index records and the block's delivery sets are compared with the reference model")
 	c.Assume("all proofs in this check are valid (HappyRule); proof handling is C03")
